@@ -114,6 +114,42 @@ def main():
                     df = objs[st["mgr"]].inference(q, **st.get("kw", {}))
                 res = [[_j(r["index"]), bool(r["result"]), bool(r["inference_timed_out"]),
                         bool(r["preprocessing_timed_out"]), str(r["query"])] for _, r in df.iterrows()]
+            elif op == "clock":
+                # fault injection for replays of budget schedules: a scripted clock that stands
+                # still except for the listed jumps [(index of the clock read, size in s)]
+                import inference.deadline as _dl
+                import inference.inference as _inf2
+                import inference.c_inference as _ci
+                import inference.tseitin_transformation as _ts
+
+                class _Clock:
+                    now, reads, done = 100.0, 0, 0
+                    jumps = {int(a): float(b) for a, b in st["jumps"]}
+
+                    @classmethod
+                    def tick(cls):
+                        cls.reads += 1
+                        if cls.reads in cls.jumps:
+                            cls.now += cls.jumps[cls.reads]
+                            cls.done += 1
+
+                    @classmethod
+                    def pc(cls):
+                        cls.tick()
+                        return cls.now
+
+                    @classmethod
+                    def pcns(cls):
+                        cls.tick()
+                        return int(cls.now * 1e9)
+                objs["clock"] = _Clock
+                _dl.perf_counter = _Clock.pc
+                _inf2.perf_counter_ns = _Clock.pcns
+                _ci.perf_counter_ns = _Clock.pcns
+                _ts.perf_counter_ns = _Clock.pcns
+                res = None
+            elif op == "clock_mark":
+                res = objs["clock"].done
             elif op == "consistency":
                 from inference.consistency_sat import consistency, consistency_indices
                 cd = conds(st["base"])
